@@ -1,8 +1,659 @@
-// C01 harness part (stub until built)
-use crate::verif::vx::report::Report;
+// C01: every neighbour's view converges to export(Loc-RIB); no withdrawal is lost.
+//
+// Explicit-state BFS over the REAL pipeline with a LIVE observing session:
+//   TableManager::{insert_route, remove_route, unregister_peer, ...}
+//     -> per-shard peer channel -> PeerSession::run (run_select:
+//        handle_prefix_update -> process_nlri_change -> ExportMap/PendingTx,
+//        flush_tx -> PeerCodec::encode_to) -> loopback TCP
+//     -> the harness (the neighbour) decodes the bytes into a mirror Adj-RIB-In.
+// RIB changes by the source peers are direct TableManager calls (producers are
+// serialised: shard locks make them atomic and they commute across shards).
+// Delivery/flush interleavings are controlled through an explicit `sync` op:
+// between two syncs the session task does not run (current-thread runtime), so
+// several RIB changes queue up and are delivered together before one flush;
+// with a sync after every change each is delivered and flushed on its own.
+// Oracle at every sync: the mirror equals the mirror of a BRAND-NEW session
+// with identical parameters brought up on the same daemon (its on_established
+// dump), and every mirrored prefix still has a path in the RIB.
 
-pub(crate) fn run(_replay: Option<&str>) -> Report {
+use super::super::*;
+use super::common::*;
+use crate::verif::vx::bfs::{self, BfsCfg, Model};
+use crate::verif::vx::report::Report;
+use std::collections::{BTreeMap, BTreeSet};
+use std::net::{IpAddr, Ipv4Addr};
+
+const OBS: IpAddr = IpAddr::V4(Ipv4Addr::new(127, 0, 1, 1));
+const OBS2: IpAddr = IpAddr::V4(Ipv4Addr::new(127, 0, 1, 2));
+const F: Family = Family::IPV4;
+
+#[derive(Clone, Debug, PartialEq)]
+pub(crate) enum ObsRole {
+    Ebgp,
+    Ibgp,
+    RrClient,
+    RsClient,
+}
+
+#[derive(Clone, Debug)]
+enum Op {
+    Announce { src: u8, pfx: u8, attr: u8, nh: u8 },
+    Withdraw { src: u8, pfx: u8 },
+    /// source session ends without GR (unregister_peer with drop families)
+    PeerDown { src: u8 },
+    Nh { nh: u8, up: bool },
+    /// source session ends with GR: its routes stay, marked stale
+    PeerDownStale { src: u8 },
+    /// LLGR period starts for the (down) source
+    MarkLlgr { src: u8 },
+    DropStale { src: u8 },
+    SoftResetOut,
+    RouteRefresh,
+    /// toggle the global export policy (none <-> reject prefix P2) without telling anybody
+    PolicySwap,
+    Sync,
+}
+
+fn op_name(o: &Op) -> String {
+    let s = |x: &u8| ["A", "B", "L", "O(the neighbour itself)"][*x as usize];
+    match o {
+        Op::Announce { src, pfx, attr, nh } => format!("announce({},P{},{},N{})", s(src), pfx + 1, ["X", "Y"][*attr as usize], nh + 1),
+        Op::Withdraw { src, pfx } => format!("withdraw({},P{})", s(src), pfx + 1),
+        Op::PeerDown { src } => format!("peer_down({})", s(src)),
+        Op::Nh { nh, up } => format!("nexthop(N{},{})", nh + 1, if *up { "up" } else { "down" }),
+        Op::PeerDownStale { src } => format!("peer_down_gr({})", s(src)),
+        Op::MarkLlgr { src } => format!("llgr_period_starts({})", s(src)),
+        Op::DropStale { src } => format!("stale_purge({})", s(src)),
+        Op::SoftResetOut => "soft_reset_out".into(),
+        Op::RouteRefresh => "route_refresh(from neighbour)".into(),
+        Op::PolicySwap => "export_policy_swap".into(),
+        Op::Sync => "sync".into(),
+    }
+}
+
+pub(crate) struct PipeModel {
+    name: String,
+    role: ObsRole,
+    send_max: usize,
+    shards: usize,
+    /// prefixes: index -> NLRI (P1..P3 on one shard when shards > 1)
+    ops: Vec<Op>,
+    nets: Vec<packet::Nlri>,
+}
+
+type Mirror = BTreeMap<(String, u32), (String, Option<IpAddr>)>;
+
+/// Everything a RIB-affecting op depends on besides the tables; kept separately so that the
+/// same op list can be replayed on a replica daemon.
+pub(crate) struct RibState {
+    src_epoch: [u32; 2],
+    srcs: [Arc<table::Source>; 2],
+    obs_src: Arc<table::Source>,
+    nh_down: BTreeSet<u8>,
+    src_down: [bool; 2],
+    policy: Arc<table::PolicyAssignment>,
+    policy_on: bool,
+}
+
+pub(crate) struct Sys {
+    rt: tokio::runtime::Runtime,
+    d: Daemon,
+    conn: Option<Conn>,
+    mirror: Mirror,
+    st: RibState,
+    /// RIB-affecting ops applied so far (replayed on the replica at every sync)
+    log: Vec<Op>,
+    /// the export policy changed and no soft reset / route refresh has been requested since
+    policy_pending_reset: bool,
+    dirty: bool,
+    broken: BTreeSet<String>,
+    dead: bool,
+}
+
+fn nh(i: u8) -> bgp::Nexthop {
+    bgp::Nexthop::V4(Ipv4Addr::new(192, 0, 2, 1 + i))
+}
+
+fn attrs(i: u8, asn: u32) -> Arc<Vec<packet::Attribute>> {
+    let mut path = vec![2u8, 1];
+    path.extend_from_slice(&asn.to_be_bytes());
+    let as_path = if asn == 0 { packet::Attribute::empty_as_path() } else { packet::Attribute::new_with_bin(packet::Attribute::AS_PATH, path).unwrap() };
+    let mut v = vec![packet::Attribute::new_with_value(packet::Attribute::ORIGIN, 0).unwrap(), as_path];
+    // X is better than Y (LOCAL_PREF / MED both present so that every receiver role sees a difference)
+    v.push(packet::Attribute::new_with_value(packet::Attribute::LOCAL_PREF, if i == 0 { 200 } else { 100 }).unwrap());
+    v.push(packet::Attribute::new_with_bin(packet::Attribute::COMMUNITY, (0xfde8_0000u32 + i as u32).to_be_bytes().to_vec()).unwrap());
+    Arc::new(v)
+}
+
+impl PipeModel {
+    fn src_role(&self, s: u8) -> table::PeerRole {
+        match (&self.role, s) {
+            (ObsRole::RsClient, _) => table::PeerRole::RsClient,
+            (_, 0) => table::PeerRole::Ebgp,
+            _ => table::PeerRole::Ibgp,
+        }
+    }
+    fn mk_src(&self, s: u8) -> Arc<table::Source> {
+        let role = self.src_role(s);
+        let asn = if matches!(role, table::PeerRole::Ibgp) { 65000 } else { 65010 + s as u32 };
+        Arc::new(table::Source::new(IpAddr::V4(Ipv4Addr::new(10, 1, 0, 1 + s)), IpAddr::V4(Ipv4Addr::new(10, 1, 0, 254)), asn, 65000, Ipv4Addr::new(10, 1, 0, 1 + s), role))
+    }
+    fn peer_params(&self, addr: IpAddr) -> PeerParams {
+        let mut p = default_peer_params(addr);
+        p.passive = true;
+        p.holdtime = 90;
+        match self.role {
+            ObsRole::Ebgp => p.expected_remote_asn = 65100,
+            ObsRole::RsClient => {
+                p.expected_remote_asn = 65100;
+                p.rs_client = true;
+            }
+            ObsRole::Ibgp => {
+                p.expected_remote_asn = 65000;
+                p.local_asn = 65000;
+            }
+            ObsRole::RrClient => {
+                p.expected_remote_asn = 65000;
+                p.local_asn = 65000;
+                p.route_reflector = RouteReflectorConfig { route_reflector_client: true, route_reflector_cluster_id: None };
+            }
+        }
+        p.families = [(F, if self.send_max > 1 { 2u8 } else { 0u8 })].into_iter().collect();
+        if self.send_max > 1 {
+            p.send_max.insert(F, self.send_max);
+        }
+        p
+    }
+    fn peer_asn(&self) -> u32 {
+        match self.role {
+            ObsRole::Ebgp | ObsRole::RsClient => 65100,
+            _ => 65000,
+        }
+    }
+    fn peer_caps(&self) -> Vec<packet::Capability> {
+        let mut c = vec![packet::Capability::MultiProtocol(F), packet::Capability::FourOctetAsNumber(self.peer_asn())];
+        if self.send_max > 1 {
+            c.push(packet::Capability::AddPath(vec![(F, 1)]));
+        }
+        c
+    }
+
+    fn rib_state(&self) -> RibState {
+        RibState {
+            src_epoch: [0, 0],
+            srcs: [self.mk_src(0), self.mk_src(1)],
+            // a route learned from the observing neighbour itself (echo filter)
+            obs_src: Arc::new(table::Source::new(OBS, IpAddr::V4(Ipv4Addr::new(127, 0, 0, 1)), self.peer_asn(), 65000, Ipv4Addr::new(10, 10, 10, 10), match self.role {
+                ObsRole::Ebgp => table::PeerRole::Ebgp,
+                ObsRole::RsClient => table::PeerRole::RsClient,
+                ObsRole::Ibgp => table::PeerRole::Ibgp,
+                ObsRole::RrClient => table::PeerRole::IbgpRrClient,
+            })),
+            nh_down: BTreeSet::new(),
+            src_down: [false, false],
+            policy: reject_lp100_export(),
+            policy_on: false,
+        }
+    }
+
+    /// Apply one RIB-affecting op; false = not enabled in this state.
+    fn rib_apply(&self, tables: &TableHandle, st: &mut RibState, o: &Op) -> bool {
+        let src = |st: &RibState, s: u8| -> Arc<table::Source> {
+            match s {
+                0 | 1 => st.srcs[s as usize].clone(),
+                2 => table::Source::local(),
+                _ => st.obs_src.clone(),
+            }
+        };
+        match o {
+            Op::Announce { src: s, pfx, attr, nh: n } => {
+                if *s < 2 && st.src_down[*s as usize] {
+                    return false;
+                }
+                let source = src(st, *s);
+                let asn = if source.is_local() { 0 } else { source.remote_asn };
+                let a = if matches!(source.role, table::PeerRole::Ibgp | table::PeerRole::IbgpRrClient) && !source.is_local() { attrs(*attr, 65050) } else { attrs(*attr, asn) };
+                tables.insert_route(source, F, packet::PathNlri::new(self.nets[*pfx as usize].clone()), Some(nh(*n)), a, None, 0);
+            }
+            Op::Withdraw { src: s, pfx } => {
+                if *s < 2 && st.src_down[*s as usize] {
+                    return false;
+                }
+                tables.remove_route(src(st, *s), F, packet::PathNlri::new(self.nets[*pfx as usize].clone()), None, 0);
+            }
+            Op::PeerDown { src: s } => {
+                if *s > 1 || st.src_epoch[*s as usize] >= 2 || st.src_down[*s as usize] {
+                    return false;
+                }
+                tables.unregister_peer(st.srcs[*s as usize].remote_addr, &[F], &[]);
+                st.src_epoch[*s as usize] += 1;
+                st.srcs[*s as usize] = self.mk_src(*s);
+            }
+            Op::PeerDownStale { src: s } => {
+                if st.src_down[*s as usize] || st.src_epoch[*s as usize] >= 2 {
+                    return false;
+                }
+                tables.unregister_peer(st.srcs[*s as usize].remote_addr, &[], &[F]);
+                st.src_down[*s as usize] = true;
+            }
+            Op::MarkLlgr { src: s } => {
+                if !st.src_down[*s as usize] {
+                    return false;
+                }
+                tables.mark_llgr_stale(st.srcs[*s as usize].remote_addr, &[F]);
+            }
+            Op::DropStale { src: s } => {
+                if !st.src_down[*s as usize] {
+                    return false;
+                }
+                // restart timer expiry while down: everything of the peer goes; the next session is a new Source
+                tables.drop_families(st.srcs[*s as usize].remote_addr, &[F]);
+                st.src_down[*s as usize] = false;
+                st.src_epoch[*s as usize] += 1;
+                st.srcs[*s as usize] = self.mk_src(*s);
+            }
+            Op::Nh { nh: n, up } => {
+                if *up != st.nh_down.contains(n) {
+                    return false;
+                }
+                if *up {
+                    st.nh_down.remove(n);
+                } else {
+                    st.nh_down.insert(*n);
+                }
+                tables.update_nexthop_validity(nh(*n).addr(), *up);
+            }
+            Op::PolicySwap => {
+                st.policy_on = !st.policy_on;
+                tables.export_policy.store(if st.policy_on { Some(st.policy.clone()) } else { None });
+            }
+            _ => {}
+        }
+        true
+    }
+
+    /// Read everything the daemon has sent so far and apply it to `mirror`.
+    async fn drain(conn: &mut Conn, mirror: &mut Mirror) -> Result<(), String> {
+        // two barriers: the first KEEPALIVE is counted before the flush of the same
+        // select iteration has finished, the second one only after it
+        if !(conn.barrier().await && conn.barrier().await) {
+            return Err("session ended during sync".into());
+        }
+        loop {
+            // parse what is buffered, then poll the socket without blocking
+            loop {
+                match conn.codec.try_parse(&mut conn.rx) {
+                    Ok(Some(m)) => apply(mirror, m),
+                    Ok(None) => break,
+                    Err(e) => return Err(format!("the neighbour cannot parse what the daemon sent: {e:?}")),
+                }
+            }
+            let Some(stream) = conn.stream.as_mut() else { return Err("no stream".into()) };
+            let mut buf = [0u8; 8192];
+            match stream.try_read(&mut buf) {
+                Ok(0) => return Err("daemon closed the session".into()),
+                Ok(n) => conn.rx.extend_from_slice(&buf[..n]),
+                Err(e) if e.kind() == std::io::ErrorKind::WouldBlock => return Ok(()),
+                Err(e) => return Err(format!("read: {e}")),
+            }
+        }
+    }
+}
+
+/// Export policy used by the policy-swap op: reject every route whose LOCAL_PREF is 100 (attribute set Y).
+fn reject_lp100_export() -> Arc<table::PolicyAssignment> {
+    let mut pt = table::PolicyTable::new();
+    pt.add_statement("s", vec![table::ConditionConfig::LocalPrefEq(100)], Some(table::Disposition::Reject), table::Actions::default()).unwrap();
+    pt.add_policy("p", vec!["s".to_string()]).unwrap();
+    pt.build_assignment(None, "global", table::PolicyDirection::Export, table::Disposition::Accept, vec!["p".to_string()]).unwrap()
+}
+
+fn attr_fp(a: &[packet::Attribute]) -> String {
+    let mut v: Vec<(u8, String)> = a.iter().map(|x| (x.code(), crate::verif::vx::report::hex(&x.encode_to_bytes()))).collect();
+    v.sort();
+    v.into_iter().map(|(_, h)| h).collect::<Vec<_>>().join(".")
+}
+
+fn apply(mirror: &mut Mirror, m: bgp::ParsedMessage) {
+    if let bgp::ParsedMessage::Update(bgp::ParsedUpdate::Routes { reach, mp_reach, unreach, mp_unreach, attrs, .. }) = m {
+        for u in unreach.into_iter().chain(mp_unreach) {
+            for e in u.entries {
+                mirror.remove(&(format!("{}", e.nlri), e.path_id));
+            }
+        }
+        for r in reach.into_iter().chain(mp_reach) {
+            for e in r.entries {
+                mirror.insert((format!("{}", e.nlri), e.path_id), (attr_fp(&attrs), r.nexthop.map(|n| n.addr())));
+            }
+        }
+    }
+}
+
+impl Model for PipeModel {
+    type Sys = Sys;
+    fn name(&self) -> String {
+        self.name.clone()
+    }
+    fn n_ops(&self) -> usize {
+        self.ops.len()
+    }
+    fn op_name(&self, op: usize) -> String {
+        op_name(&self.ops[op])
+    }
+
+    fn init(&self) -> Sys {
+        let rt = runtime();
+        let d = Daemon::new(self.shards);
+        let p1 = self.peer_params(OBS);
+        let conn = rt.block_on(async {
+            {
+                let mut g = d.global.write().await;
+                g.add_peer(p1, None).expect("add_peer");
+            }
+            let Ok(Some(mut c)) = connect(&d, OBS, crate::fsm::Role::Passive).await else { return None };
+            match c.establish(self.peer_asn(), 0x0a0a0a0a, 90, self.peer_caps()).await {
+                Ok(true) => Some(c),
+                _ => None,
+            }
+        });
+        let dead = conn.is_none();
+        if dead {
+            machinery("C01: could not establish the observing session".into());
+        }
+        Sys {
+            rt,
+            d,
+            conn,
+            mirror: BTreeMap::new(),
+            st: self.rib_state(),
+            log: Vec::new(),
+            policy_pending_reset: false,
+            dirty: false,
+            broken: BTreeSet::new(),
+            dead,
+        }
+    }
+
+    fn step(&self, sys: &mut Sys, op: usize, out: &mut Vec<(String, String)>) -> bool {
+        if sys.dead {
+            return false;
+        }
+        let o = &self.ops[op];
+        let tables = sys.d.tables.clone();
+        match o {
+            Op::Announce { .. } | Op::Withdraw { .. } | Op::PeerDown { .. } | Op::PeerDownStale { .. } | Op::MarkLlgr { .. } | Op::DropStale { .. } | Op::Nh { .. } | Op::PolicySwap => {
+                if !self.rib_apply(&tables, &mut sys.st, o) {
+                    return false;
+                }
+                sys.log.push(o.clone());
+                sys.dirty = true;
+                if matches!(o, Op::PolicySwap) {
+                    // a policy change alone is not propagated (the operator issues a soft reset):
+                    // the views are compared only after soft_reset_out / ROUTE-REFRESH
+                    sys.policy_pending_reset = true;
+                }
+            }
+            Op::SoftResetOut => {
+                tables.soft_reset_out(OBS);
+                sys.policy_pending_reset = false;
+                sys.dirty = true;
+            }
+            Op::RouteRefresh => {
+                let conn = sys.conn.as_mut().unwrap();
+                let ok = sys.rt.block_on(conn.send(&bgp::Message::RouteRefresh { family: F }));
+                if !ok {
+                    sys.dead = true;
+                    machinery("C01: could not send ROUTE-REFRESH".into());
+                    return false;
+                }
+                sys.policy_pending_reset = false;
+                sys.dirty = true;
+            }
+            Op::Sync => {
+                if !sys.dirty || sys.policy_pending_reset {
+                    return false;
+                }
+                sys.dirty = false;
+                let mut cur: Vec<(String, String)> = Vec::new();
+                let conn = sys.conn.as_mut().unwrap();
+                let mut mirror = std::mem::take(&mut sys.mirror);
+                let r = sys.rt.block_on(Self::drain(conn, &mut mirror));
+                sys.mirror = mirror;
+                if let Err(e) = r {
+                    cur.push(("C01/observer-session-lost".into(), format!("sync: {e}")));
+                    sys.dead = true;
+                } else {
+                    // brand-new session with identical parameters: a replica daemon rebuilt by
+                    // replaying the RIB-affecting ops (deterministic, so destination and path ids
+                    // coincide), to which the neighbour connects from the SAME address
+                    let log = sys.log.clone();
+                    let fresh = sys.rt.block_on(async {
+                        let d2 = Daemon::new(self.shards);
+                        {
+                            let mut g = d2.global.write().await;
+                            g.add_peer(self.peer_params(OBS), None).map_err(|_| "add_peer on replica".to_string())?;
+                        }
+                        let mut st2 = self.rib_state();
+                        for o in &log {
+                            if !self.rib_apply(&d2.tables, &mut st2, o) {
+                                return Err("replica replay diverged".to_string());
+                            }
+                        }
+                        let mut c = match connect(&d2, OBS, crate::fsm::Role::Passive).await {
+                            Ok(Some(c)) => c,
+                            Ok(None) => return Err("fresh session refused by accept_connection".to_string()),
+                            Err(e) => return Err(format!("fresh session: {e}")),
+                        };
+                        match c.establish(self.peer_asn(), 0x0a0a0a0a, 90, self.peer_caps()).await {
+                            Ok(true) => {}
+                            _ => return Err("fresh session did not establish".into()),
+                        }
+                        let mut m = Mirror::new();
+                        Self::drain(&mut c, &mut m).await?;
+                        c.wait_end(true).await;
+                        Ok(m)
+                    });
+                    match fresh {
+                        Err(e) => {
+                            machinery(format!("C01: {e}"));
+                            sys.dead = true;
+                            return false;
+                        }
+                        Ok(fresh) => {
+                            if fresh != sys.mirror {
+                                // classify
+                                let mut class = "attributes-or-nexthop-differ";
+                                let mut detail = String::new();
+                                for (k, v) in &sys.mirror {
+                                    match fresh.get(k) {
+                                        None => {
+                                            class = "stale-route-never-withdrawn";
+                                            detail = format!("{:?} is in the neighbour's Adj-RIB-In but a new session would not be sent it", k);
+                                            break;
+                                        }
+                                        Some(f) if f != v => detail = format!("{:?}: neighbour holds {:?}, a new session is sent {:?}", k, v, f),
+                                        _ => {}
+                                    }
+                                }
+                                if class != "stale-route-never-withdrawn" {
+                                    for k in fresh.keys() {
+                                        if !sys.mirror.contains_key(k) {
+                                            class = "route-missing";
+                                            detail = format!("{:?} would be sent to a new session but the neighbour does not have it", k);
+                                            break;
+                                        }
+                                    }
+                                }
+                                cur.push((format!("C01/view-differs-from-fresh-session/{class}"), format!("{detail}; neighbour view {:?}; fresh view {:?}", sys.mirror.keys().collect::<Vec<_>>(), fresh.keys().collect::<Vec<_>>())));
+                            }
+                            // independent of the dump: every mirrored prefix has a path in the RIB
+                            let rib: BTreeSet<String> = sys.d.tables.collect_loc_rib_paths(F).iter().map(|c| format!("{}", c.net)).collect();
+                            for (k, _) in sys.mirror.iter() {
+                                if !rib.contains(&k.0) {
+                                    cur.push(("C01/mirrored-prefix-not-in-rib".into(), format!("{:?} is in the neighbour's Adj-RIB-In but the RIB has no eligible path for it", k)));
+                                    break;
+                                }
+                            }
+                        }
+                    }
+                }
+                let mut now = BTreeSet::new();
+                for (sig, what) in cur {
+                    let clause = sig.split('/').nth(1).unwrap_or("").to_string();
+                    if !sys.broken.contains(&clause) && !now.contains(&clause) {
+                        out.push((sig, what));
+                    }
+                    now.insert(clause);
+                }
+                sys.broken = now;
+            }
+        }
+        if take_machinery().is_some() {
+            sys.dead = true;
+            return false;
+        }
+        true
+    }
+
+    fn fingerprint(&self, sys: &Sys) -> Vec<u8> {
+        let mut rib: Vec<String> = Vec::new();
+        for dd in sys.d.tables.collect_paths(table::TableQuery::Global, F, vec![], true) {
+            rib.push(format!("{}:{:?}", dd.net, dd.paths.iter().map(|p| (p.source.remote_addr, p.stale, p.source.is_llgr_stale(), bfs::hash128(&p.attr.iter().flat_map(|a| a.encode_to_bytes()).collect::<Vec<u8>>()) as u32)).collect::<Vec<_>>()));
+        }
+        rib.sort();
+        let mut loc: Vec<String> = sys.d.tables.collect_loc_rib_paths(F).iter().map(|c| format!("{}#{}:{:?}", c.net, c.dest_id, c.current_paths.iter().map(|p| (p.local_path_id, p.source.remote_addr, p.nexthop.map(|n| n.addr()))).collect::<Vec<_>>())).collect();
+        loc.sort();
+        // what is queued for the observer is determined by the ops since the last sync: keep them distinct
+        format!("{:?}|{:?}|{:?}|{:?}|{:?}|{}|{}|{:?}|{}|{:?}|{}", rib, loc, sys.mirror, sys.st.src_epoch, sys.st.nh_down, sys.st.policy_on, sys.dirty, sys.broken, sys.dead, sys.st.src_down, sys.policy_pending_reset).into_bytes()
+    }
+
+    fn observe(&self, sys: &Sys) -> u64 {
+        sys.mirror.len() as u64
+    }
+
+    fn panic_sig(&self, msg: &str) -> Option<(String, String)> {
+        if msg.contains("/verif/") {
+            machinery(format!("harness panic: {msg}"));
+            None
+        } else {
+            Some((format!("C01/panic/{}", bfs::panic_loc(msg)), format!("the daemon panicked: {msg}")))
+        }
+    }
+}
+
+fn pick_nets(shards: usize) -> Vec<packet::Nlri> {
+    // three prefixes that the real dealer hash puts on the SAME shard
+    let probe = TableManager::new(shards);
+    let mut same = Vec::new();
+    let src = Arc::new(table::Source::new(IpAddr::V4(Ipv4Addr::new(10, 1, 0, 9)), IpAddr::V4(Ipv4Addr::new(10, 1, 0, 254)), 65001, 65000, Ipv4Addr::new(10, 1, 0, 9), table::PeerRole::Ebgp));
+    for k in 0..60u8 {
+        let n = packet::Nlri::V4(packet::bgp::Ipv4Net { addr: Ipv4Addr::new(10, 70, k, 0), mask: 24 });
+        probe.insert_route(src.clone(), F, packet::PathNlri::new(n.clone()), Some(nh(0)), attrs(0, 65001), None, 0);
+        let in0 = probe.shards[0].lock().unwrap().rtable.iter_reach(F).any(|r| r.net.nlri == n);
+        if in0 {
+            same.push(n);
+        }
+        if same.len() == 3 {
+            break;
+        }
+    }
+    same
+}
+
+fn models(thorough: bool) -> Vec<PipeModel> {
+    let mk = |name: &str, role: ObsRole, send_max: usize, shards: usize, pack: &str| {
+        let nets = pick_nets(shards);
+        let mut ops = Vec::new();
+        match pack {
+            // destination-id re-use: one source, three prefixes on one shard
+            "idreuse" => {
+                for pfx in 0..3u8 {
+                    ops.push(Op::Announce { src: 0, pfx, attr: 0, nh: 0 });
+                    ops.push(Op::Withdraw { src: 0, pfx });
+                }
+                ops.push(Op::Announce { src: 0, pfx: 0, attr: 1, nh: 0 });
+                ops.push(Op::PeerDown { src: 0 });
+            }
+            // two or three sources on one prefix: best changes, add-path window, split horizon / RS / RR filters
+            _ => {
+                for s in 0..3u8 {
+                    ops.push(Op::Announce { src: s, pfx: 0, attr: 0, nh: 0 });
+                    ops.push(Op::Announce { src: s, pfx: 0, attr: 1, nh: if s == 1 { 1 } else { 0 } });
+                    ops.push(Op::Withdraw { src: s, pfx: 0 });
+                }
+                ops.push(Op::Announce { src: 0, pfx: 1, attr: 0, nh: 0 });
+                ops.push(Op::Withdraw { src: 0, pfx: 1 });
+                ops.push(Op::PeerDown { src: 0 });
+                ops.push(Op::Nh { nh: 0, up: false });
+                ops.push(Op::Nh { nh: 0, up: true });
+                // a route learned from the observing neighbour itself
+                ops.push(Op::Announce { src: 3, pfx: 0, attr: 0, nh: 0 });
+                ops.push(Op::Withdraw { src: 3, pfx: 0 });
+                ops.push(Op::PolicySwap);
+            }
+        }
+        if pack == "gr" {
+            ops.clear();
+            ops.push(Op::Announce { src: 0, pfx: 0, attr: 0, nh: 0 });
+            ops.push(Op::Announce { src: 1, pfx: 0, attr: 1, nh: 1 });
+            ops.push(Op::Announce { src: 0, pfx: 1, attr: 1, nh: 0 });
+            ops.push(Op::Withdraw { src: 1, pfx: 0 });
+            ops.push(Op::PeerDownStale { src: 0 });
+            ops.push(Op::MarkLlgr { src: 0 });
+            ops.push(Op::DropStale { src: 0 });
+            ops.push(Op::PolicySwap);
+        }
+        ops.push(Op::SoftResetOut);
+        ops.push(Op::RouteRefresh);
+        ops.push(Op::Sync);
+        PipeModel { name: name.into(), role, send_max, shards, ops, nets }
+    };
+    let mut v = vec![
+        mk("c01-ebgp-idreuse", ObsRole::Ebgp, 1, 2, "idreuse"),
+        mk("c01-ibgp-multi", ObsRole::Ibgp, 1, 1, "multi"),
+        mk("c01-ebgp-addpath2", ObsRole::Ebgp, 2, 1, "multi"),
+        mk("c01-ibgp-gr", ObsRole::Ibgp, 1, 1, "gr"),
+        mk("c01-ebgp-addpath2-gr", ObsRole::Ebgp, 2, 1, "gr"),
+    ];
+    if thorough {
+        v.push(mk("c01-rrclient-multi", ObsRole::RrClient, 1, 2, "multi"));
+        v.push(mk("c01-rsclient-multi", ObsRole::RsClient, 1, 1, "multi"));
+        v.push(mk("c01-ebgp-multi", ObsRole::Ebgp, 1, 2, "multi"));
+        v.push(mk("c01-ibgp-addpath2", ObsRole::Ibgp, 2, 2, "multi"));
+        v.push(mk("c01-addpath-idreuse", ObsRole::Ebgp, 2, 2, "idreuse"));
+    }
+    v
+}
+
+pub(crate) fn run(replay: Option<&str>) -> Report {
     let mut rep = Report::new("C01", "hd-c01");
-    rep.machinery_error = Some("harness not built yet".into());
+    if let Some(case) = replay {
+        let Some((name, hist)) = bfs::decode_case(case) else {
+            rep.machinery_error = Some("bad replay case".into());
+            return rep;
+        };
+        let Some(m) = models(true).into_iter().find(|m| m.name == name) else {
+            rep.machinery_error = Some(format!("unknown model {name}"));
+            return rep;
+        };
+        eprintln!("replay {}", bfs::render(&m, &hist));
+        rep.violations_from(bfs::replay(&m, &hist, true));
+        rep.evaluations = 1;
+        rep.machinery_error = take_machinery();
+        return rep;
+    }
+    let thorough = rep.thorough();
+    let depth = if thorough { 7 } else { 5 };
+    rep.rule = format!("explicit-state BFS depth {depth} over announce/withdraw/peer-down/next-hop-flap/soft-reset-out/ROUTE-REFRESH events from 2 peers + local, with an explicit `sync` op that lets the LIVE observing session (real PeerSession::run over loopback) deliver and flush what has queued up; at every sync the neighbour's mirror Adj-RIB-In (decoded from the bytes received) must equal the mirror of a brand-new identical session on the same daemon and contain only prefixes the RIB still has; configurations: observer role, add-path send-max, shard count, op pack (destination-id re-use / multi-source); non-trivial = distinct canonical (RIB, mirror, pending) state");
+    rep.notes.push("assume: the UPDATE bytes are decoded with the repository's own parser under the neighbour's negotiated codec (C04 checks that codec independently)".into());
+    rep.notes.push("assume: an export-policy change is followed by soft_reset_out or ROUTE-REFRESH before the views are compared (the operator procedure); TCP partial writes inside one flush are not varied".into());
+    for m in models(thorough) {
+        let cfg = BfsCfg { max_depth: depth, max_secs: if thorough { 2400 } else { 40 }, ..Default::default() };
+        bfs::bfs(&m, &cfg, &mut rep);
+        if let Some(e) = take_machinery() {
+            rep.machinery_error = Some(e);
+            break;
+        }
+    }
     rep
 }
